@@ -243,6 +243,7 @@ void harness::run_case(const eng::Raw& raw, eng::Ctx& ctx)
 	gen::Limits lim;
 	lim.maxStates = ctx.tier() ? 5 : 4;
 	lim.arity3 = false;
+	lim.overload = true;
 	std::vector<gen::TACase> autos(3);
 	{
 		// T0 and T1 are a related PAIR (strategies of DESIGN §3.4, split / superset / ablate weighted up), so that their
